@@ -148,6 +148,38 @@ def block_type_of(ct, expr, mod):
     return None
 
 
+def presence_type(ct, expr):
+    """BlockType member tested by a presence expression over the entry table, or None:
+       any(e.type == T for e in entries) | any(e for e in entries if e.type == T) | T in [e.type for e in entries]"""
+    def type_test(c, var):
+        if isinstance(c, ast.Compare) and len(c.ops) == 1 and isinstance(c.ops[0], (ast.Eq, ast.Is)):
+            for a, b in ((c.left, c.comparators[0]), (c.comparators[0], c.left)):
+                if isinstance(a, ast.Attribute) and a.attr == "type" and norm(a.value) == var:
+                    return block_type_of(ct, b, ct.mod)
+        return None
+
+    if isinstance(expr, ast.Call) and norm(expr.func) == "bool" and len(expr.args) == 1:
+        return presence_type(ct, expr.args[0])
+    if isinstance(expr, ast.Call) and norm(expr.func) == "any" and len(expr.args) == 1 and isinstance(expr.args[0], (ast.GeneratorExp, ast.ListComp)) \
+            and len(expr.args[0].generators) == 1:
+        g = expr.args[0].generators[0]
+        var = norm(g.target)
+        if not ct.is_entries(g.iter):
+            return None
+        if not g.ifs:
+            return type_test(expr.args[0].elt, var)
+        if len(g.ifs) == 1 and (norm(expr.args[0].elt) == var or (isinstance(expr.args[0].elt, ast.Constant) and bool(expr.args[0].elt.value))):
+            return type_test(g.ifs[0], var)
+        return None
+    if isinstance(expr, ast.Compare) and len(expr.ops) == 1 and isinstance(expr.ops[0], ast.In) and isinstance(expr.comparators[0], (ast.ListComp, ast.SetComp, ast.GeneratorExp)) \
+            and len(expr.comparators[0].generators) == 1:
+        comp = expr.comparators[0]
+        g = comp.generators[0]
+        if ct.is_entries(g.iter) and not g.ifs and isinstance(comp.elt, ast.Attribute) and comp.elt.attr == "type" and norm(comp.elt.value) == norm(g.target):
+            return block_type_of(ct, expr.left, ct.mod)
+    return None
+
+
 def accessor_agreement(ct, rep, rule="accessor-agreement"):
     tdf = ct.tdf
     n = 0
@@ -176,15 +208,12 @@ def accessor_agreement(ct, rep, rule="accessor-agreement"):
                         if ca is not None and isinstance(ca[1], ast.Attribute) and norm(ca[1].value) == "BlockType" and k.name not in ("Block",):
                             types["class"] = ca[1].attr
         if has is not None:
-            cmp_ = [c for c in walk_no_nested(has.node) if isinstance(c, ast.Compare) and len(c.ops) == 1 and isinstance(c.ops[0], ast.Eq)]
-            tt = None
-            for c in cmp_:
-                for a, b in ((c.left, c.comparators[0]), (c.comparators[0], c.left)):
-                    if isinstance(a, ast.Attribute) and a.attr == "type":
-                        tt = block_type_of(ct, b, ct.mod) or tt
+            from ..facts import return_leaves
+            leaves = return_leaves(has.node)
+            tts = {presence_type(ct, v) if v is not None else None for _, v, _ in leaves}
+            tt = next(iter(tts)) if len(tts) == 1 else None
             types["has"] = tt
-            over = any(ct.is_entries(x) for x in ast.walk(has.node))
-            if not over or tt is None:
+            if tt is None:
                 rep.fail(rule, ct.mod.path.name, f"Tdf.has_{g}", has.node, "presence predicate is not a type test over the entry table", construct=f"Tdf.has_{g}")
         vals = {v for v in types.values()}
         if len(vals) == 1 and None not in vals:
@@ -195,25 +224,30 @@ def accessor_agreement(ct, rep, rule="accessor-agreement"):
         if setter is not None:
             fq = f"Tdf.{g}.setter"
             data = setter.params[0]
+            from ..facts import path_returns
+            okk = True
+            why = "setter is not `replace if present else add` on its own group's predicate"
+            npaths = 0
+            for pe in path_returns(setter.node):
+                if pe.kind == "raise":
+                    continue
+                calls = [x for e in pe.effects + ([ast.Expr(value=pe.value)] if pe.value is not None else []) for x in ast.walk(e)
+                         if isinstance(x, ast.Call) and norm(x.func) in ("self.replace_block", "self.add_block")]
+                present = None
+                for t, pol in pe.guards:
+                    while isinstance(t, ast.UnaryOp) and isinstance(t.op, ast.Not):
+                        t, pol = t.operand, not pol
+                    if is_self_attr(t) and t.attr.startswith("has_"):
+                        if t.attr != "has_" + g:
+                            okk = False
+                            why = f"the setter of `{g}` decides on `self.{t.attr}`: expected `self.has_{g}`"
+                        present = pol
+                npaths += 1
+                want = "self.replace_block" if present else "self.add_block"
+                if present is None or len(calls) != 1 or norm(calls[0].func) != want or [norm(a) for a in calls[0].args] != [data] or calls[0].keywords:
+                    okk = False
+            okk = okk and npaths == 2
             ifx = [x for x in walk_no_nested(setter.node) if isinstance(x, ast.IfExp)]
-            okk = False
-            if len(ifx) == 1:
-                e = ifx[0]
-                t = e.test
-                b, o = e.body, e.orelse
-                if is_self_attr(t) and isinstance(b, ast.Call) and isinstance(o, ast.Call):
-                    okk = t.attr == "has_" + g and norm(b.func) == "self.replace_block" and norm(o.func) == "self.add_block" \
-                        and [norm(a) for a in b.args] == [data] and [norm(a) for a in o.args] == [data]
-                    if not okk:
-                        why = f"`{norm(e)}`: expected `self.replace_block({data}) if self.has_{g} else self.add_block({data})`"
-            else:
-                # if/else statement form
-                ifs = [s for s in setter.node.body if isinstance(s, ast.If)]
-                if ifs and is_self_attr(ifs[0].test) and ifs[0].test.attr == "has_" + g:
-                    bt = norm(ifs[0].body[0].value.func) if ifs[0].body and isinstance(ifs[0].body[0], ast.Expr) and isinstance(ifs[0].body[0].value, ast.Call) else ""
-                    ot = norm(ifs[0].orelse[0].value.func) if ifs[0].orelse and isinstance(ifs[0].orelse[0], ast.Expr) and isinstance(ifs[0].orelse[0].value, ast.Call) else ""
-                    okk = bt == "self.replace_block" and ot == "self.add_block"
-                why = "setter is not `replace if present else add` on its own group's predicate"
             if okk:
                 rep.ok(rule, f"{fq}: replace when has_{g} else add", nontrivial=True)
             else:
